@@ -18,6 +18,13 @@ CHECKS = {
             "the thorough tier cuts the stream at every absolute byte offset (both directions, EOF and reset, sockets and pipes) of seeded short "
             "workloads; quick samples offsets. Oracle: received == sent prefix, EOFError + closed stream on failure, transients never surface.",
             "DESIGN.md C05", ""),
+    "C08": ("exploration",
+            "deterministic simulation: seeded request streams between two live peers (or a scripted reference peer); oracle = frame ledger decoded from a wire tap",
+            "Seeded search over request streams (sync/async/nested, up to 8 outstanding, value/reference/exception/unencodable outcomes, "
+            "undecodable requests with arbitrary sequence numbers) and link schedules; oracle is a frame-level ledger kept by an independent "
+            "codec: one response per request with its own seq, nothing unsolicited, handler at most once, result delivered to its requester, "
+            "connection still usable afterwards.",
+            "DESIGN.md C08", ""),
 }
 
 NOT_APPLICABLE = {
